@@ -43,7 +43,7 @@ fn label(stats: &mut Stats, case: &SeqCase, f: &SeqFacts) {
     stats.label_n("event_reads_checked", f.events_checked as u64);
 }
 
-const NORMAL: Mode = Mode { diff_tag: "C04", check_events: true, fault_at: None, bomb: Bomb::None };
+const NORMAL: Mode = Mode { diff_tag: "C04", check_events: true, fault_at: None, bomb: Bomb::None , ledger_only: false, events_only: false };
 
 fn replay_seq(v: &Value) -> Verdict {
     let c: SeqCase = parse_case("seq", v)?;
@@ -71,7 +71,7 @@ fn c08_fuzz(ctx: &ShardCtx) -> ShardResult {
     crate::engine::run_fuzz(ctx, "seq_target", "C08")
 }
 
-const FUZZ_RULE: &str = "thorough tier only: libFuzzer (cargo-fuzz, AddressSanitizer) campaigns (120000 executions per shard for histories, 200000 for storage sequences) on a target that decodes bytes (arbitrary::Unstructured) into the same SeqCase type (all 12 storage configurations, dense and sparse pools) and runs the same interpreter and oracles, so silent heap corruption in the unsafe storage code becomes a crash; non-trivial as in the proptest part; counts come from the target";
+const FUZZ_RULE: &str = "thorough tier only: libFuzzer (cargo-fuzz, AddressSanitizer) campaigns (120000 executions per shard for histories, 200000 for storage sequences) on a target that decodes bytes (arbitrary::Unstructured) into the same SeqCase type (all 18 storage configurations, dense and sparse pools) and runs the same interpreter and oracles, so silent heap corruption in the unsafe storage code becomes a crash; non-trivial as in the proptest part; counts come from the target";
 
 pub fn c04() -> Property {
     Property {
@@ -81,7 +81,7 @@ pub fn c04() -> Property {
             shards: |t: Tier| t.pick(8, 16),
             run: c04_run,
             replay: replay_seq,
-            rule: "proptest sequences (<=60 ops quick, <=300 thorough) of insert/overwrite/get/get_mut/remove/contains/entry family (or_insert, or_insert_with, replace, occupied get/get_mut/insert/remove/into_mut, vacant insert)/entries() lend-join/get_mut_or_default/drain (full and partial)/clear/joins/restricted joins/slice writes/entity deletion and creation, over dense, sparse and layer-straddling entity pools, for each of the 12 storage configurations; oracle: BTreeMap differential (return values, mask, count, is_empty, every lookup, slice views) after every step; non-trivial = a remove/drain/clear followed by a later insert and >= 3 distinct indices", exe_env: None
+            rule: "proptest sequences (<=60 ops quick, <=300 thorough) of insert/overwrite/get/get_mut/remove/contains/entry family (or_insert, or_insert_with, replace, occupied get/get_mut/insert/remove/into_mut, vacant insert)/entries() lend-join/get_mut_or_default/drain (full and partial)/clear/joins/restricted joins/slice writes/entity deletion and creation, over dense, sparse and layer-straddling entity pools, for each of the 18 storage configurations (6 plain kinds, FlaggedStorage and DerefFlaggedStorage over each of the 6); oracle: BTreeMap differential (return values, mask, count, is_empty, every lookup, slice views) after every step; non-trivial = a remove/drain/clear followed by a later insert and >= 3 distinct indices", exe_env: None
         }],
         crash_is_violation: true,
         assumptions: &["BTreeMap reference model in harness/src/stoseq.rs", "hibitset and shred trusted"],
@@ -94,12 +94,21 @@ fn c08_seq_run(ctx: &ShardCtx) -> ShardResult {
     let max_ops = ctx.tier.pick(50, 250);
     let cases = ctx.tier.pick(6000, 30_000);
     run_proptest(ctx, stoseq::case_strategy(stoseq::all_kinds(), stoseq::C04_PROFILE, max_ops), cases, 8, |c, stats| {
-        let mode = Mode { diff_tag: "C04", check_events: false, fault_at: None, bomb: Bomb::None };
+        let mode = Mode { diff_tag: "C04", check_events: false, fault_at: None, bomb: Bomb::None , ledger_only: true, events_only: false };
         let f = stoseq::run_case_dyn(c, &mode)?;
         label(stats, c, &f);
+        if f.diverged_from_model > 0 {
+            stats.label("diverged_from_map_model_but_continued");
+        }
         stats.case(c, f.overwrite_or_remove && f.entity_deletion_with_comp && f.live_at_teardown > 0);
         Ok(())
     })
+}
+
+fn c08_replay_seq(v: &Value) -> Verdict {
+    let c: SeqCase = parse_case("seq", v)?;
+    let mode = Mode { diff_tag: "C04", check_events: false, fault_at: None, bomb: Bomb::None, ledger_only: true, events_only: false };
+    stoseq::run_case_dyn(&c, &mode).map(|_| ())
 }
 
 fn c08_hist_run(ctx: &ShardCtx) -> ShardResult {
@@ -134,8 +143,8 @@ pub fn c08() -> Property {
                 name: "sequences",
                 shards: |t: Tier| t.pick(6, 16),
                 run: c08_seq_run,
-                replay: replay_seq,
-                rule: "single-storage sequences as C04 over all 12 configurations (incl. zero-sized components in NullStorage and placeholder slots of DefaultVecStorage), every component value instrumented with a serial + canary; ledger invariant after every step and after dropping the world: no serial destroyed twice, every value read through get/join/slice is live with an intact canary, nothing left alive at the end; non-trivial = an overwrite or remove, a deletion of an entity holding a component, and live components at world drop", exe_env: None
+                replay: c08_replay_seq,
+                rule: "single-storage sequences as C04 over all 18 configurations (incl. zero-sized components in NullStorage and placeholder slots of DefaultVecStorage), every component value instrumented with a serial + canary; ledger invariant after every step and after dropping the world: no serial destroyed twice, every value read through get/join/slice is live with an intact canary, nothing left alive at the end; non-trivial = an overwrite or remove, a deletion of an entity holding a component, and live components at world drop", exe_env: None
             },
             SubCheck {
                 name: "histories",
@@ -145,7 +154,7 @@ pub fn c08() -> Property {
                 rule: "world histories (hist.rs, mixed profile) with builders, lazy insert / insert_all / lazy builders (executed, or dropped with the world before maintain), entity deletion through all paths over 2..6 storages; same ledger invariant; non-trivial = overwrite/remove + death of an entity with >= 2 components + live components at world drop", exe_env: None
             },
             crate::props_join::c08_changeset_sub(),
-            SubCheck { name: "fuzz", shards: |t: Tier| t.pick(0, 4), run: c08_fuzz, replay: replay_seq, rule: FUZZ_RULE, exe_env: None },
+            SubCheck { name: "fuzz", shards: |t: Tier| t.pick(0, 4), run: c08_fuzz, replay: c08_replay_seq, rule: FUZZ_RULE, exe_env: None },
         ],
         crash_is_violation: true,
         assumptions: &["the ledger (thread-local, serial + canary per value) observes every construction and destruction of component values"],
@@ -154,13 +163,23 @@ pub fn c08() -> Property {
 
 // --------------------------------------------------------------------------- C12
 
+const C12_MODE: Mode = Mode { diff_tag: "C04", check_events: true, fault_at: None, bomb: Bomb::None, ledger_only: false, events_only: true };
+
+fn c12_replay(v: &Value) -> Verdict {
+    let c: SeqCase = parse_case("seq", v)?;
+    stoseq::run_case_dyn(&c, &C12_MODE).map(|_| ())
+}
+
 fn c12_body(ctx: &ShardCtx, salt: u64) -> ShardResult {
     let max_ops = ctx.tier.pick(50, 250);
     let cases = ctx.tier.pick(8000, 30_000);
     run_proptest(ctx, stoseq::case_strategy(stoseq::tracked_kinds(), stoseq::C12_PROFILE, max_ops), cases, salt, |c, stats| {
-        let mode = Mode { diff_tag: "C04", check_events: true, fault_at: None, bomb: Bomb::None };
+        let mode = C12_MODE;
         let f = stoseq::run_case_dyn(c, &mode)?;
         label(stats, c, &f);
+        if f.diverged_from_model > 0 {
+            stats.label("diverged_from_map_model_but_continued");
+        }
         stats.case(c, (f.entity_deletion_with_comp || f.drain_tracked) && f.partial_mutable_access);
         Ok(())
     })
@@ -175,12 +194,12 @@ fn c12_run_nosec(ctx: &ShardCtx) -> ShardResult {
 }
 
 pub fn c12() -> Property {
-    const RULE: &str = "sequences without clear() over FlaggedStorage<Dense|Vec|HashMap> and DerefFlaggedStorage<Dense|Vec|BTree>; a reader registered first is read after every operation: Inserted/Removed events must equal the model's list exactly (multiset per operation), Modified(i) must appear when the caller received (Flagged) / actually dereferenced or overwrote (DerefFlagged) mutable access to i and may only appear for such i (or where the library takes access internally: replace on a vacant entry); nothing while emission is off; a second never-drained reader is replayed at the end against the final mask; non-trivial = an entity deletion or drain of a tracked component and a partial mutable access (some items of a join fetched mutably, some not)";
+    const RULE: &str = "sequences without clear() over FlaggedStorage and DerefFlaggedStorage, each over all six inner kinds (Vec, DenseVec, DefaultVec, HashMap, BTree, Null with a zero-sized component); a reader registered first is read after every operation: Inserted/Removed events must equal the model's list exactly (multiset per operation), Modified(i) must appear when the caller received (Flagged) / actually dereferenced or overwrote (DerefFlagged) mutable access to i and may only appear for such i (or where the library takes access internally: replace on a vacant entry); nothing while emission is off; a second never-drained reader is replayed at the end against the final mask; non-trivial = an entity deletion or drain of a tracked component and a partial mutable access (some items of a join fetched mutably, some not)";
     Property {
         id: "C12",
         subs: vec![
-            SubCheck { name: "tracked", shards: |t: Tier| t.pick(6, 12), run: c12_run, replay: replay_seq, rule: RULE, exe_env: None },
-            SubCheck { name: "tracked-nosec", shards: |t: Tier| t.pick(4, 8), run: c12_run_nosec, replay: replay_seq,
+            SubCheck { name: "tracked", shards: |t: Tier| t.pick(6, 12), run: c12_run, replay: c12_replay, rule: RULE, exe_env: None },
+            SubCheck { name: "tracked-nosec", shards: |t: Tier| t.pick(4, 8), run: c12_run_nosec, replay: c12_replay,
                 rule: "the same check from a second build of specs without the storage-event-control feature (emit_event() is a different function there; emission toggling is skipped)", exe_env: Some("VERIF_NOSEC_BIN") },
         ],
         crash_is_violation: false,
@@ -211,6 +230,7 @@ fn destroying_op() -> impl Strategy<Value = SOp> {
         1 => any::<u16>().prop_map(SOp::Remove),
         2 => any::<u16>().prop_map(SOp::GenericRemove),
         2 => proptest::option::of(0u8..4).prop_map(SOp::Drain),
+        2 => (proptest::option::of(0u8..4), any::<bool>(), proptest::collection::vec(any::<bool>(), 1..5)).prop_map(|(take, lend, filter)| SOp::DrainFiltered { take, lend, filter }),
         2 => (any::<u16>(), 1u32..1000).prop_map(|(s, p)| SOp::LazyInsertMaintain(s, p)),
         1 => (any::<u16>(), 1u32..1000).prop_map(|(s, p)| SOp::Replace(s, p)),
         1 => (any::<u16>(), 1u32..1000).prop_map(|(s, p)| SOp::OccInsert(s, p)),
@@ -253,7 +273,7 @@ fn run_fault(fc: &FaultCase) -> Result<SeqFacts, Violation> {
         (None, Some(o)) => Bomb::ZstOrdinal(o),
         _ => Bomb::None,
     };
-    let mode = Mode { diff_tag: "C19", check_events: false, fault_at: Some(fc.at), bomb };
+    let mode = Mode { diff_tag: "C19", check_events: false, fault_at: Some(fc.at), bomb, ledger_only: false, events_only: false };
     stoseq::run_case_dyn(&fc.seq, &mode)
 }
 
@@ -264,7 +284,7 @@ fn c19_run(ctx: &ShardCtx) -> ShardResult {
         // dry run: which values does the destroying operation destroy?
         let mut dry = seq.clone();
         dry.ops.truncate(*at + 1);
-        let mode = Mode { diff_tag: "C19", check_events: false, fault_at: None, bomb: Bomb::None };
+        let mode = Mode { diff_tag: "C19", check_events: false, fault_at: None, bomb: Bomb::None , ledger_only: false, events_only: false };
         let f = stoseq::run_case_dyn(&dry, &mode)?;
         let serials = f.destroyed_in_last_op.clone();
         let nz = f.zst_destroyed_in_last_op;
@@ -326,7 +346,7 @@ fn op_name(op: &SOp) -> &'static str {
         SOp::Insert(..) => "insert_overwrite",
         SOp::Remove(..) => "remove",
         SOp::GenericRemove(..) => "generic_remove",
-        SOp::Drain(..) => "drain",
+        SOp::Drain(..) | SOp::DrainFiltered { .. } => "drain",
         SOp::LazyInsertMaintain(..) => "lazy_insert_maintain",
         SOp::Replace(..) => "entry_replace",
         SOp::OccInsert(..) => "entry_insert",
@@ -343,7 +363,7 @@ fn c19_replay(v: &Value) -> Verdict {
     let (seq, at): Proto = parse_case("fault-proto", v)?;
     let mut dry = seq.clone();
     dry.ops.truncate(at + 1);
-    let mode = Mode { diff_tag: "C19", check_events: false, fault_at: None, bomb: Bomb::None };
+    let mode = Mode { diff_tag: "C19", check_events: false, fault_at: None, bomb: Bomb::None , ledger_only: false, events_only: false };
     let f = stoseq::run_case_dyn(&dry, &mode)?;
     for s in &f.destroyed_in_last_op {
         run_fault(&FaultCase { seq: seq.clone(), at, serial: Some(*s), zst_ordinal: None })?;
@@ -363,7 +383,7 @@ pub fn c19() -> Property {
                 shards: |t: Tier| t.pick(8, 16),
                 run: c19_run,
                 replay: c19_replay,
-                rule: "generated prefix (<=20 ops quick, <=60 thorough) + one destroying operation (clear, delete_all, delete_entity, delete_entities incl. failing batch, maintain with a pending deletion, overwrite, remove, GenericWriteStorage::remove, drain, lazy insert + maintain, entry replace/insert, dropping the world) over all 12 storage configurations; a dry run lists the values the operation destroys, then the identical run is repeated once per such value (all of them, capped at 24 spread evenly incl. first and last) with that value's destructor panicking; after catch_unwind: no serial destroyed twice, every value visible through get/join/slices (this storage and an auxiliary one) is live with an intact canary, the model is re-synchronised from the observable state and a generated continuation of ordinary operations is checked differentially, then the world is dropped (again: no double destruction); leaks after the panic are only counted; non-trivial = the operation destroys >= 2 values and the panic was caught", exe_env: None
+                rule: "generated prefix (<=20 ops quick, <=60 thorough) + one destroying operation (clear, delete_all, delete_entity, delete_entities incl. failing batch, maintain with a pending deletion, overwrite, remove, GenericWriteStorage::remove, drain, lazy insert + maintain, entry replace/insert, dropping the world) over all 18 storage configurations; a dry run lists the values the operation destroys, then the identical run is repeated once per such value (all of them, capped at 24 spread evenly incl. first and last) with that value's destructor panicking; after catch_unwind: no serial destroyed twice, every value visible through get/join/slices (this storage and an auxiliary one) is live with an intact canary, the model is re-synchronised from the observable state and a generated continuation of ordinary operations is checked differentially, then the world is dropped (again: no double destruction); leaks after the panic are only counted; non-trivial = the operation destroys >= 2 values and the panic was caught", exe_env: None
             },
             crate::props_join::c19_changeset_sub(),
         ],
@@ -430,7 +450,7 @@ pub fn c13() -> Property {
             shards: |t: Tier| t.pick(6, 12),
             run: c13_seq_run,
             replay: replay_seq,
-            rule: "sequences over all 12 storage configurations that change the content (insert, remove, entity deletion / creation, emission toggling) interleaved with restricted joins: lend_join (PairedStorageWriteExclusive) and join (PairedStorageWriteShared) over &mut restrict_mut() with a generated subset of items fetched mutably and written; visited items == storage members in order, item.get() == map value, afterwards the full storage equals the map (only the chosen entities changed, mask unchanged) and on tracked storages the Modified events are exactly the mutably fetched set; non-trivial = >= 3 distinct indices and a strict non-empty subset fetched mutably",
+            rule: "sequences over all 18 storage configurations that change the content (insert, remove, entity deletion / creation, emission toggling) interleaved with restricted joins: lend_join (PairedStorageWriteExclusive) and join (PairedStorageWriteShared) over &mut restrict_mut() with a generated subset of items fetched mutably and written; visited items == storage members in order, item.get() == map value, afterwards the full storage equals the map (only the chosen entities changed, mask unchanged) and on tracked storages the Modified events are exactly the mutably fetched set; non-trivial = >= 3 distinct indices and a strict non-empty subset fetched mutably",
             exe_env: None,
         },
         SubCheck {
